@@ -31,6 +31,11 @@ def size(obj: Any) -> int:
         return len(obj)
     except TypeError:
         return 0
+    except OverflowError:
+        # A range with more items than `len` can count.
+        if isinstance(obj, range) and obj.step == 1:
+            return max(0, obj.stop - obj.start)
+        raise
 
 
 def default(obj: Any, default_: object = "", *, allow_false: bool = False) -> Any:
